@@ -28,6 +28,11 @@ func (x *Exec) step(fr *Frame, ins ssa.Instruction, st *State) []alt {
 			st.mem["len:"+m.key] = cell{m, sz}
 			return one(st, m)
 		}
+		if x.UniqueMake {
+			m := mk("madeslice", fr.ctx+"/"+funcKey(fr.fn)+"."+ins.Name(), ins.Type(), x.curMark())
+			st.mem["len:"+m.key] = cell{m, x.val(fr, ins.Len)}
+			return one(st, m)
+		}
 		return one(st, tList(false, nil))
 	case *ssa.MakeMap:
 		m := mk("mapobj", fr.ctx+"/"+funcKey(fr.fn)+"."+ins.Name(), ins.Type(), x.curMark())
@@ -411,6 +416,9 @@ func siteID(fr *Frame, site ssa.CallInstruction) string {
 // call dispatches one call: builtins, client models, inlining, opaque.
 func (x *Exec) call(fr *Frame, st *State, site ssa.CallInstruction, callee *ssa.Function, fnTerm *Term, args []*Term) []CallOut {
 	if fnTerm.Op == "builtin" {
+		if handled, outs := x.C.Call(x, st, fr, site, callee, fnTerm, args); handled {
+			return outs
+		}
 		return x.builtin(fr, st, site, fnTerm.Aux, args)
 	}
 	if handled, outs := x.C.Call(x, st, fr, site, callee, fnTerm, args); handled {
